@@ -179,3 +179,18 @@ for nm, d in (("hmac.reinit.u", "TJV_REINIT"), ("hmac.update.seq", "TJV_UPDATE")
         "unbounded": "every length <= 2^40, exact-size object, arbitrary prior state contents",
         "assumes": ["hash API replaced by a protocol-recording contract stub (arbitrary digest)"],
     })
+
+# ---------------------------------------------------------------- denser value grids for the thorough tier
+_step = [j for j in JOBS if j["name"] == "hkdf.step.grid.0"][0]
+JOBS += split_grid(dict(_step, name="hkdf.step.gridt",
+    grid=[{"label": "n%d_p%d_o%d_i%d" % (n, p, o, i), "defs": ["NN=%d" % n, "POSN=%d" % p, "OL=%d" % o, "IL=%d" % i]}
+          for (n, p, o, i) in [(1, 32, 31, 1), (1, 32, 64, 40), (2, 7, 24, 1), (2, 7, 25, 1), (2, 7, 26, 40), (2, 31, 1, 0), (2, 31, 2, 0), (2, 31, 34, 1),
+                               (3, 32, 96, 0), (100, 1, 63, 1), (100, 1, 64, 1), (253, 32, 64, 3), (254, 9, 23, 0), (254, 9, 56, 40), (5, 32, 65, 1), (9, 16, 48, 40)]],
+    cost=160,
+    bounded="16 more (n, posn, outlen, infolen) shapes incl. n up to 254, outlen up to 96 (three blocks), infolen up to 40"), 8)
+_pb = [j for j in JOBS if j["name"] == "pbkdf2.grid.0"][0]
+JOBS += split_grid(dict(_pb, name="pbkdf2.gridt",
+    grid=[{"label": "p%d_s%d_c%d_o%d" % (p, sl, c, o), "defs": ["PL=%d" % p, "SL=%d" % sl, "CNT=%d" % c, "OL=%d" % o]}
+          for (p, sl, c, o) in [(1, 1, 1, 1), (64, 0, 2, 32), (65, 16, 2, 33), (100, 3, 1, 64), (33, 47, 3, 31), (8, 8, 0, 65), (16, 12, 2, 65), (0, 36, 1, 96)]],
+    cost=160,
+    bounded="8 more (passwordlen, saltlen, count, outlen) shapes incl. three output blocks and a 47-byte salt"), 8)
